@@ -29,6 +29,7 @@ type Args struct {
 	Recheck int    `json:"recheck"` // re-execute every n-th run and compare fingerprints (0: default 50)
 	Limit   int    `json:"limit"`   // cap on cases (0 = all)
 	Skip    []int  `json:"skip"`    // case indices to skip (they killed an earlier worker process)
+	Only    []int  `json:"only"`    // run exactly these case indices (cold starts: one process per case)
 	Case    int    `json:"case"`    // genplan: case index
 }
 
@@ -203,8 +204,16 @@ func TestSim(t *testing.T) {
 		if prop == nil {
 			t.Fatalf("unknown property %s", a.Prop)
 		}
+		var cold []int
+		if prop.Cold != nil && a.Tier != "" {
+			for i, c := range prop.Cases(a.Seed, a.Tier) {
+				if prop.Cold(c) {
+					cold = append(cold, i)
+				}
+			}
+		}
 		b, _ := json.Marshal(map[string]any{"level": prop.Level, "rule": prop.Rule, "evalCounter": prop.EvalCounter,
-			"components": prop.Components, "assumptions": prop.Assumptions, "requiredProbes": prop.RequiredProbes})
+			"components": prop.Components, "assumptions": prop.Assumptions, "requiredProbes": prop.RequiredProbes, "coldCases": cold})
 		if err := os.WriteFile(a.Out, b, 0o644); err != nil {
 			t.Fatal(err)
 		}
@@ -276,8 +285,19 @@ func TestSim(t *testing.T) {
 	for _, s := range a.Skip {
 		skip[s] = true
 	}
+	only := map[int]bool{}
+	for _, o := range a.Only {
+		only[o] = true
+	}
 	for i, c := range cases {
-		if i%a.Workers != a.Worker || skip[i] {
+		if skip[i] {
+			continue
+		}
+		if len(only) > 0 {
+			if !only[i] {
+				continue
+			}
+		} else if i%a.Workers != a.Worker || (prop.Cold != nil && prop.Cold(c)) {
 			continue
 		}
 		if a.Out != "" {
